@@ -131,6 +131,17 @@ impl Engine {
         info!("init");
         self.runtime.init(self);
         package::init(self);
+
+        // the processes that were running when the last engine on this store stopped run on in
+        // this one: they are loaded again, so that the tick checks their timeouts
+        let rt = self.runtime.clone();
+        rt.cache()
+            .restore(&rt, |proc| {
+                if proc.state().is_none() {
+                    proc.start();
+                }
+            })
+            .unwrap_or_else(|err| tracing::error!("engine.init restore={}", err));
     }
 
     pub(crate) fn new_with_config(config: &Config) -> Self {
